@@ -1,0 +1,68 @@
+//go:build verif
+
+// Contracts for package scorch: removal of old snapshots and segment files (read by /verif/gocv;
+// comment-only effect with the verif tag off).
+
+package scorch
+
+// ---------------------------------------------------------------------------
+// C12 / C13: what may be removed. A segment file is removed only if no persisted snapshot names it,
+// it is not marked ineligible (in use by the current root or being persisted) and no online copy
+// of it is scheduled. A persisted snapshot is removed from the metadata store only if it is not
+// protected; the most recent persisted snapshot is always protected.
+// ---------------------------------------------------------------------------
+
+// os / path / log / bolt (assumed)
+//@ assume func os.ReadDir(name)
+//@   ensures implies(result1 == nil, forall(k, 0, len(result0), result0[k] != nil))
+//@ assume func os.Remove(name)
+//@ assume func fs.DirEntry.Name(d)
+//@   requires d != nil
+//@ assume func filepath.Ext(path)
+//@   pure
+//@ assume func log.Printf(format, v)
+//@ assume func bbolt.Tx.Commit(tx)
+//@   requires tx != nil && tx.open
+//@   modifies tx.open, openTx
+//@   ensures !tx.open && openTx == old(openTx) - 1
+//@ assume func bbolt.Tx.Rollback(tx)
+//@   requires tx != nil && tx.open
+//@   modifies tx.open, openTx
+//@   ensures !tx.open && openTx == old(openTx) - 1
+//@ assume func bbolt.DB.Sync(db)
+//@ assume func bbolt.Bucket.DeleteBucket(b, key)
+//@   requires b != nil
+
+// the file names of all persisted snapshots (trusted: reads the metadata store through cursors)
+//@ func Scorch.loadZapFileNames
+//@   props C12
+//@   mode int
+//@   trusted walks bolt buckets with cursors and closures
+//@   requires s != nil
+//@   ensures implies(result1 == nil, result0 != nil)
+
+//@ func Scorch.removeOldZapFiles
+//@   props C12
+//@   mode int
+//@   locks
+//@   requires s != nil && !held(s.rootLock) && rheld(s.rootLock) == 0 && s.ineligibleForRemoval != nil && s.copyScheduled != nil
+//@   modifies lock(s.rootLock)
+//@   at call os.Remove#0: assert filepath.Ext(fname) == ".zap" && !in(liveFileNames, fname) && !s.ineligibleForRemoval[fname] && s.copyScheduled[fname] <= 0 && rheld(s.rootLock) == 1
+//@   ensures !held(s.rootLock) && rheld(s.rootLock) == 0
+//@   loop 0: invariant !held(s.rootLock) && rheld(s.rootLock) == 1 && liveFileNames != nil && s.ineligibleForRemoval != nil && s.copyScheduled != nil && forall(k, 0, len(files), files[k] != nil)
+
+// time-series sampling of the live snapshots (trusted: time arithmetic); it only ever selects live
+// snapshots
+//@ func getTimeSeriesSnapshots
+//@   props C13
+//@   mode int
+//@   trusted time arithmetic over snapshot time stamps is not under contract
+//@   ensures result != nil && fresh(result)
+
+// the latest live snapshot is always protected
+//@ func Scorch.getProtectedSnapshots
+//@   props C13 C12
+//@   mode int
+//@   requires s != nil && len(liveSnapshots) > 0 && forall(k, 0, len(liveSnapshots), liveSnapshots[k] != nil) && s.numSnapshotsToKeep < 1073741824
+//@   ensures result != nil && in(result, liveSnapshots[0].epoch)
+//@   loop 0: invariant protectedEpochs != nil && fresh(protectedEpochs) && in(protectedEpochs, latestSnapshot.epoch) && latestSnapshot == liveSnapshots[0] && 1 <= i && numProtected <= s.numSnapshotsToKeep + i + 1073741824
